@@ -488,6 +488,14 @@ fn gen_instance(rng: &mut Rng, max_live: usize, small_types: bool, dup: bool, co
         if let Some(k) = kcs.iter().find(|k| k.h0 != k.h1) {
             if let Some(c) = a.iter_mut().find(|c| c.name.starts_with("pa")) {
                 c.name = k.h1.clone();
+                if rng.chance(1, 2) {
+                    // ... and of the same type as that key column
+                    let n = c.rows.len();
+                    c.st = k.st;
+                    c.row_shape = k.row_shape.clone();
+                    let rs = c.rs();
+                    c.rows = (0..n).map(|_| rand_row(k.st, rs, true, rng)).collect();
+                }
             }
         }
     }
@@ -661,6 +669,7 @@ pub fn run(tier: &str, seed: u64, out: &mut Out) {
         "search" => (6000, 0, 100, 60, 3),
         _ => (75, 10, 8, 3, 2),
     };
+    let n_comp_collide = match tier { "thorough" => 16, "search" => 40, _ => 3 };
     for i in 0..n_plain {
         let max_live = if i % 5 == 0 { 2 } else { 8 };
         let inst = gen_instance(&mut rng, max_live, false, false, false);
@@ -685,6 +694,19 @@ pub fn run(tier: &str, seed: u64, out: &mut Out) {
         let inst = gen_instance(&mut rng, 4, false, false, true);
         out.stat("stream:key-header-collision");
         run_plain(&inst, true, out);
+    }
+    // compiled joins on the header-collision stream (key columns matched under different names,
+    // the first table has a payload column named like the second table's key column)
+    for i in 0..n_comp_collide {
+        let mut inst = gen_instance(&mut rng, 3, true, false, true);
+        for _ in 0..20 {
+            if inst.keys.iter().any(|(h0, h1)| h0 != h1 && inst.a.iter().any(|c| &c.name == h1)) { break; }
+            inst = gen_instance(&mut rng, 3, true, false, true);
+        }
+        let jt = [JoinType::Union, JoinType::Inner, JoinType::Left, JoinType::Union][i % 4];
+        let owners = [(0u8, 1u8), (3, 2), (1, 0), (2, 3)][(i / 2) % 4];
+        out.stat("stream:compiled-key-header-collision");
+        run_compiled(&inst, jt, owners, comp_seeds, &mut rng, out);
     }
     for i in 0..n_comp {
         let inst = gen_instance(&mut rng, 3, true, false, false);
